@@ -6,7 +6,9 @@ TOKEN = re.compile(r'"(?:[^"\\]|\\.)*"|b\'[^\']*\'|\'[^\']\'|[A-Za-z_][A-Za-z0-9
 REPLACEMENTS = ['"rang_très_élevé"', '"aéééééééééééééééé"', '"aaéééééééééééééééé"', "&(u8)", "(u8)", "&'static (dyn Fn(u32) -> u32 + Sync)",
                 "&&(u8)", "fn(u8) -> u8", "[(u8); 2]", "unsafe", "*", "-1", "99999999999999999999", '"é"', "a::b", "()", "true", "false", '""', "1.5", "'c'", "b\"x\"",
                 "r#type", "Self", "self", "_", "name", "ignore", "method", "bound", "rank", "expression", "new", "named_field",
-                "Debug", "Into", "u8", "&'static str", ",", "=", "(", ")", "[", "]", "{", "}", "#", "!", "?", "'a", "12_u8", "0x10"]
+                "Debug", "Into", "u8", "&'static str", ",", "=", "(", ")", "[", "]", "{", "}", "#", "!", "?", "'a", "12_u8", "0x10",
+                # string literals whose content is not a plain identifier / path / integer
+                '"r#type"', '" x "', '"type"', '"1abc"', '"a-b"', '"x y"', '"::"', '"\\n"', '"r#"', '"_"', '"self"', '"-"', '"+1"', '" 1"', '"0x10"', '"1_000"']
 
 ADVERSARIAL_ATTRS = [
     "#[educe]", '#[educe = "x"]', "#[educe()]", "#[educe(,)]", "#[educe(Debug())]", "#[educe(Hash())]", "#[educe(Hash[])]",
@@ -24,7 +26,9 @@ ADVERSARIAL_ATTRS = [
     "#[educe(Debug(named_field))]", "#[educe(Debug(named_field = 1))]", "#[educe(Debug = false)]", '#[educe(Debug = "")]',
     '#[educe(Ord(rank = "rang_très_élevé"))]', '#[educe(Ord(rank("ééééééééééééééééé")))]', '#[educe(Debug(name = "ééééééééééééééééé"))]',
     '#[educe(Debug(name("aéééééééééééééééé")))]', '#[educe(Hash(method = "ééé::ééééééééééé::é"))]', '#[educe(Default(expression = "ééééééééééééééééé"))]',
-    '#[educe(Clone(bound = "ééééééééé: éééééééééé"))]', "#[educe(Debug(name(1 foo)))]", "#[educe(Debug(name(true false)))]", "#[educe(Default(expr(1, 2)))]", "#[educe(Hash(method(1)))]",
+    '#[educe(Clone(bound = "ééééééééé: éééééééééé"))]', '#[educe(Debug(name("r#type")))]', '#[educe(Debug(rename("r#type")))]', '#[educe(Debug(name(" x ")))]',
+    '#[educe(Debug(name("type")))]', '#[educe(Debug = "r#type")]', '#[educe(Debug(name = " padded "))]', '#[educe(Debug(rename = "1abc"))]', '#[educe(Debug(name("")))]',
+    '#[educe(Ord(rank(" 1")))]', '#[educe(Ord(rank = "+1"))]', '#[educe(Ord(rank("0x10")))]', '#[educe(Hash(method("r#fn::x")))]', '#[educe(Hash(method = " m "))]', "#[educe(Debug(name(1 foo)))]", "#[educe(Debug(name(true false)))]", "#[educe(Default(expr(1, 2)))]", "#[educe(Hash(method(1)))]",
 ]
 ODD_TYPES = ["(u8)", "&'static (u8)", "&'static &'static (u8)", "&'static (dyn Fn(u32) -> u32 + Sync)", "fn(u8) -> u8", "[(u8); 2]",
              "((u8),)", "*const (u8)", "&'static [(u8)]", "Option<&'static (u8)>"]
